@@ -705,8 +705,10 @@ def _finish_cut(asm, c, text, hits, kv, secs, kind):
             sig2 = sig
         if 'rename' in kv:
             sig2 = re.sub(r'\bfn\s+' + re.escape(kv['name']) + r'\b', 'fn ' + kv['rename'], sig2, count=1)
-        sig2 = re.sub(r'\bpub\s+const\s+fn\b', 'pub fn', sig2)
-        sig2 = re.sub(r'(?<![A-Za-z_])const\s+fn\b', 'fn', sig2)
+        if not kv.get('keepconst'):
+            # Verus: a `const fn` cannot carry requires/ensures; constness has no run-time meaning
+            sig2 = re.sub(r'\bpub\s+const\s+fn\b', 'pub fn', sig2)
+            sig2 = re.sub(r'(?<![A-Za-z_])const\s+fn\b', 'fn', sig2)
         # keep the line count of the signature
         dl = sig.count('\n') - sig2.count('\n')
         if dl > 0:
